@@ -242,9 +242,13 @@ pub fn structured() -> Vec<(String, Deviation)> {
                     raw.extend(std::iter::repeat(0x80).take(digits));
                     raw.extend([0x66, second]);
                     raw.extend(&inner);
-                    let total = 3 + digits + 0x66 + 0x50;
-                    raw.resize(total, 0);
-                    v.push((format!("connect response with a padded identifier: {}..", vref::bytes::hex(&raw[..raw.len().min(20)])), Deviation { msg: "connect_response".into(), kind: DevKind::Replace(vref::framing::tpkt(&vref::framing::x224_dt(&raw))) }));
+                    // exactly the element a reader sees that takes 0x66 for the length octet (identifier, length, 0x66 octets of
+                    // content); a second copy runs on into 0x50 more octets
+                    for extra in [0usize, 0x50] {
+                        let mut raw = raw.clone();
+                        raw.resize(1 + digits + 1 + 0x66 + extra, 0);
+                        v.push((format!("connect response with a padded identifier ({} octets): {}..", raw.len(), vref::bytes::hex(&raw[..raw.len().min(20)])), Deviation { msg: "connect_response".into(), kind: DevKind::Replace(vref::framing::tpkt(&vref::framing::x224_dt(&raw))) }));
+                    }
                 }
             }
         }
